@@ -1,18 +1,27 @@
 /-
-Proofs/TieNormalEq.lean — LOOP TIES for property C04 (normal equations), part 1: the functions of
-`autoarray/inversion/inversion/inversion_util.py`.  The definitions that harness/translate2.py regenerates
-from the current Python source (Generated/LoopsNormalEq.lean) are equal, for every input and every size, to
-the hand-written `Model.Impl.*` functions of Model/NormalEq.lean that the theorems of Props/C04.lean are
-about.  Only `*_tie` theorems live in this file (helpers: Proofs/TieCore.lean, Proofs/TieNormalEqAux.lean).
+Proofs/TieNormalEq.lean — LOOP TIES for property C04 (normal equations in both formalisms): the definitions
+that harness/translate2.py regenerates from the current Python source (Generated/LoopsNormalEq.lean) are
+equal, for every input and every size, to the hand-written `Model.Impl.*` functions of Model/NormalEq.lean
+that the theorems of Props/C04.lean are about.
+  §1 `inversion/inversion_util.py`; §2 data vectors and the w-tilde curvature CONSUMERS (tied to the `…P`
+  functions over the tables as the code stores them); §3 the w-tilde PRODUCERS.
+Only `*_tie` theorems live in this file; helpers: Proofs/TieCore.lean, Proofs/TieNormalEqAux.lean (embeddings),
+…Aux2 (the quadruple loop with the running `curvature_index`, the closing loops), …Aux3 (packing / copy
+loops), …Aux4 (the two passes of the preload producer).  See design_notes/TIES_C04.md.
 -/
 import Generated.LoopsNormalEq
 import Model.NormalEq
 import Proofs.TieCore
 import Proofs.TieNormalEqAux
+import Proofs.TieNormalEqAux2
+import Proofs.TieNormalEqAux3
+import Proofs.TieNormalEqAux4
 
 open Model PyRt TieCore TieNormalEqAux
 
 namespace TieNormalEq
+
+/-! ## §1 inversion_util.py -/
 
 /-- `inversion_util.curvature_matrix_with_added_to_diag_from` = `Impl.addToDiag` (indices inside the matrix) -/
 theorem curvature_matrix_with_added_to_diag_from_tie {α : Type} [Add α] [OfNat α 0] [Inhabited α]
@@ -31,7 +40,7 @@ theorem curvature_matrix_with_added_to_diag_from_tie {α : Type} [Add α] [OfNat
 
 /-- `inversion_util.curvature_matrix_mirrored_from` = `Impl.mirrored` (square matrix: the code reads
     `curvature_matrix[j, i]` for `i < shape[0]`, `j < shape[1]`) -/
-theorem curvature_matrix_mirrored_from_tie {α : Type} [Add α] [OfNat α 0] [IntCast α] [DecidableEq α]
+theorem curvature_matrix_mirrored_from_tie {α : Type} [OfNat α 0] [IntCast α] [DecidableEq α]
     [Inhabited α] (C : Mat α) (hsq : C.r = C.c) :
     Generated.LoopsNormalEq.curvature_matrix_mirrored_from (ofMat C) = ofMat (Impl.mirrored C) := by
   unfold Generated.LoopsNormalEq.curvature_matrix_mirrored_from Impl.mirrored
@@ -108,5 +117,246 @@ theorem mapped_reconstructed_data_via_image_to_pix_unique_from_tie {α : Type} [
     simp only [Impl.Padded.entry, vget]
     rw [← get_rowsOf idx hidx (-1) hd' h1, ← get_rowsOf val hval 0 (by omega) h2]
     exact vec_add v d _
+
+/-! ## §2 data vectors, w-tilde consumers -/
+
+/-- `data_vector_via_blurred_mapping_matrix_from` = `Impl.dataVectorMapping` (one image / noise value per
+    row of the blurred mapping matrix) -/
+theorem data_vector_via_blurred_mapping_matrix_from_tie {α : Type} [Add α] [Mul α] [Div α] [OfNat α 0]
+    [Inhabited α] (B : Mat α) (image noise : List α) (hi : B.r ≤ image.length) (hn : B.r ≤ noise.length) :
+    Generated.LoopsNormalEq.data_vector_via_blurred_mapping_matrix_from (ofMat B) image noise
+      = Vec.toList (Impl.dataVectorMapping B image noise) := by
+  unfold Generated.LoopsNormalEq.data_vector_via_blurred_mapping_matrix_from Impl.dataVectorMapping
+  simp only [A2.shape0_eq, A2.shape1_eq, ofMat_h, ofMat_w, forRange_zero_nat, vec_zeros, PyRt.sq]
+  apply foldl_rel (fun (a : A1 α) (v : Vec α) => a = Vec.toList v)
+  · rfl
+  · intro d hd a v hR
+    apply foldl_rel (fun (a : A1 α) (v : Vec α) => a = Vec.toList v) _ _ _ hR
+    intro p hp a v hR
+    have hd' : d < B.r := by simpa using hd
+    have hp' : p < B.c := by simpa using hp
+    rw [hR, get_A1 image 0 (by omega), get_A1 noise 0 (by omega), ofMat_get B hd' hp']
+    exact vec_add v p _
+
+/-- `data_vector_via_w_tilde_data_imaging_from` = `Impl.dataVectorWTildeP` on the stored unique-mapping
+    table: for every data pixel `d` the used entries `k < pix_lengths[d]` lie inside the arrays and the
+    pixelization indices are non-negative (a negative index would wrap around in numpy). -/
+theorem data_vector_via_w_tilde_data_imaging_from_tie {α : Type} [Add α] [Mul α] [OfNat α 0] [Inhabited α]
+    (wtd : List α) (idx : A2 Int) (val : A2 α) (len : A1 Int) (pix : Nat)
+    (hidx : idx.data.length = idx.h * idx.w) (hval : val.data.length = val.h * val.w)
+    (hk : ∀ d : Nat, d < wtd.length → RowOK idx val len pix d) :
+    Generated.LoopsNormalEq.data_vector_via_w_tilde_data_imaging_from wtd idx val len (pix : Int)
+      = Vec.toList (Impl.dataVectorWTildeP wtd (paddedOf idx val len) pix) := by
+  unfold Generated.LoopsNormalEq.data_vector_via_w_tilde_data_imaging_from Impl.dataVectorWTildeP
+  simp only [A1.len_eq, forRange_zero_nat, paddedOf, vec_zeros]
+  simp only [forRange_zero_toNat, len_toNat]
+  apply foldl_rel (fun (a : A1 α) (v : Vec α) => a = Vec.toList v)
+  · rfl
+  · intro d hd a v hR
+    have hd' : d < wtd.length := by simpa using hd
+    apply foldl_rel (fun (a : A1 α) (v : Vec α) => a = Vec.toList v) _ _ _ hR
+    intro k hk' a v hR
+    have hk'' : k < (len.getD d 0).toNat := by
+      have : k < (List.map Int.toNat len).getD d 0 := by simpa using hk'
+      rw [← len_toNat, A1.get_natCast] at this
+      exact this
+    obtain ⟨h1, h2, h3, h4, h5, h6⟩ := hk d hd' k hk''
+    have hz : A2.get idx d k = ((A2.get idx d k).toNat : Int) := by omega
+    simp only [Impl.Padded.entry, vget]
+    rw [← get_rowsOf idx hidx (-1) h1 h3, ← get_rowsOf val hval 0 h2 h4, hR, hz, get_A1 wtd 0 hd']
+    exact vec_add v _ _
+
+/-- `curvature_matrix_off_diags_via_w_tilde_curvature_preload_imaging_from` = `Impl.offDiagPreloadP` on the
+    stored tables: every position `c` the running `curvature_index` visits lies inside
+    `curvature_indexes` / `curvature_preload` and names a data pixel whose row of the second table is in
+    range; every data pixel with a non-empty preload row has its row of the first table in range. -/
+theorem curvature_matrix_off_diags_via_w_tilde_curvature_preload_imaging_from_tie {α : Type} [Add α]
+    [Mul α] [OfNat α 0] [Inhabited α] (pre : A1 α) (ind clen : A1 Int)
+    (idx0 : A2 Int) (val0 : A2 α) (len0 : A1 Int) (pix0 : Nat)
+    (idx1 : A2 Int) (val1 : A2 α) (len1 : A1 Int) (pix1 : Nat)
+    (hi0 : idx0.data.length = idx0.h * idx0.w) (hv0 : val0.data.length = val0.h * val0.w)
+    (hi1 : idx1.data.length = idx1.h * idx1.w) (hv1 : val1.data.length = val1.h * val1.w)
+    (hc : ∀ c : Nat, c < totalPairs clen → c < ind.length ∧ c < pre.length ∧ 0 ≤ ind.getD c 0 ∧
+      RowOK idx1 val1 len1 pix1 (ind.getD c 0).toNat)
+    (h0 : ∀ d : Nat, d < clen.length → 0 < clen.getD d 0 → RowOK idx0 val0 len0 pix0 d) :
+    Generated.LoopsNormalEq.curvature_matrix_off_diags_via_w_tilde_curvature_preload_imaging_from
+        pre ind clen idx0 val0 len0 (pix0 : Int) idx1 val1 len1 (pix1 : Int)
+      = ofMat (Impl.offDiagPreloadP (flatOf pre ind clen) (paddedOf idx0 val0 len0) pix0
+          (paddedOf idx1 val1 len1) pix1) := by
+  unfold Generated.LoopsNormalEq.curvature_matrix_off_diags_via_w_tilde_curvature_preload_imaging_from
+  exact offLoop_eq pre ind clen idx0 val0 len0 pix0 idx1 val1 len1 pix1 hi0 hv0 hi1 hv1 hc h0
+
+/-- `curvature_matrix_via_w_tilde_curvature_preload_imaging_from` = `Impl.curvatureFromPreloadP` on the
+    stored tables (the quadruple loop with the running `curvature_index`, then `F[i,j] += F[j,i]`, then the
+    mirror), same well-formedness as the off-diagonal version with both tables equal. -/
+theorem curvature_matrix_via_w_tilde_curvature_preload_imaging_from_tie {α : Type} [Add α] [Mul α]
+    [OfNat α 0] [Inhabited α] (pre : A1 α) (ind clen : A1 Int)
+    (idx : A2 Int) (val : A2 α) (len : A1 Int) (pix : Nat)
+    (hi : idx.data.length = idx.h * idx.w) (hv : val.data.length = val.h * val.w)
+    (hc : ∀ c : Nat, c < totalPairs clen → c < ind.length ∧ c < pre.length ∧ 0 ≤ ind.getD c 0 ∧
+      RowOK idx val len pix (ind.getD c 0).toNat)
+    (h0 : ∀ d : Nat, d < clen.length → 0 < clen.getD d 0 → RowOK idx val len pix d) :
+    Generated.LoopsNormalEq.curvature_matrix_via_w_tilde_curvature_preload_imaging_from
+        pre ind clen idx val len (pix : Int)
+      = ofMat (Impl.curvatureFromPreloadP (flatOf pre ind clen) (paddedOf idx val len) pix) := by
+  unfold Impl.curvatureFromPreloadP
+  show symLoop (offLoop pre ind clen idx val len pix idx val len pix).1 (pix : Int) = _
+  rw [offLoop_eq pre ind clen idx val len pix idx val len pix hi hv hi hv hc h0]
+  exact sym_loops _ pix (offDiagPreloadP_dims _ _ _ _ _).1 (offDiagPreloadP_dims _ _ _ _ _).2
+
+/-! ## §3 w-tilde producers -/
+
+/-- `w_tilde_curvature_value_from` (with the default `renormalize=False`) = `Impl.wTildeCurvatureValue`:
+    the kernel footprint of the first pixel lies inside the native array (no index of
+    `value_native[ip0_y + k0_y + shift_y, …]` is negative, where numpy would wrap around, or too large). -/
+theorem w_tilde_curvature_value_from_tie {α : Type} [Add α] [Mul α] [Div α] [OfNat α 0] [OfNat α 1]
+    [IntCast α] [LT α] [DecidableLT α] [Inhabited α]
+    (h w : Nat) (valueNative : List α) (K : Kernel α) (ip0 ip1 : Nat × Nat)
+    (hv : valueNative.length = h * w) (hK : K.vals.length = K.kh * K.kw)
+    (hfp : K.hy ≤ ip0.1 ∧ ip0.1 + K.kh ≤ h + K.hy ∧ K.hx ≤ ip0.2 ∧ ip0.2 + K.kw ≤ w + K.hx) :
+    Generated.LoopsNormalEq.w_tilde_curvature_value_from (ofNative h w valueNative) (ofKernel K)
+        (ip0.1 : Int) (ip0.2 : Int) (ip1.1 : Int) (ip1.2 : Int) false
+      = Impl.wTildeCurvatureValue w valueNative K ip0 ip1 := by
+  obtain ⟨f1, f2, f3, f4⟩ := hfp
+  unfold Generated.LoopsNormalEq.w_tilde_curvature_value_from Impl.wTildeCurvatureValue
+  generalize hkh : A2.shape0 (ofKernel K) = kh
+  generalize hkw : A2.shape1 (ofKernel K) = kw
+  have e1 : ((K.kh : Nat) : Int) = kh := hkh
+  have e2 : ((K.kw : Nat) : Int) = kw := hkw
+  subst e1 e2
+  simp only [fdiv_two]
+  rw [show K.kh / 2 = K.hy from rfl, show K.kw / 2 = K.hx from rfl]
+  have hcond : (decide ((ip0.1 : Int) - ip1.1 < 2 * -(K.hy : Int)) || decide ((ip0.1 : Int) - ip1.1 > -2 * -(K.hy : Int))
+        || decide ((ip0.2 : Int) - ip1.2 < 2 * -(K.hx : Int)) || decide ((ip0.2 : Int) - ip1.2 > -2 * -(K.hx : Int))) = true
+      ↔ ((ip0.1 : Int) - ip1.1 < 2 * -(K.hy : Int) ∨ (ip0.1 : Int) - ip1.1 > -2 * -(K.hy : Int)
+        ∨ (ip0.2 : Int) - ip1.2 < 2 * -(K.hx : Int) ∨ (ip0.2 : Int) - ip1.2 > -2 * -(K.hx : Int)) := by
+    simp only [Bool.or_eq_true, decide_eq_true_eq, or_assoc]
+  simp only [hcond]
+  split
+  · rfl
+  · simp only [Bool.false_eq_true, if_false, forRange_yx]
+    rw [forYX_eq_foldl]
+    apply foldl_rel (fun (s : α × Int) (t : α) => s.1 = t)
+    · rfl
+    · intro p hp s t hst
+      rw [mem_pixels] at hp
+      obtain ⟨hp1, hp2⟩ := hp
+      have ey : ((ip0.1 : Int) + (p.1 : Int)) + -(K.hy : Int) = ((ip0.1 + p.1 - K.hy : Nat) : Int) := by omega
+      have ex : ((ip0.2 : Int) + (p.2 : Int)) + -(K.hx : Int) = ((ip0.2 + p.2 - K.hx : Nat) : Int) := by omega
+      rw [ey, ex, get_ofNative h w valueNative hv 0 (by omega) (by omega),
+        get_ofKernel K hK hp1 hp2]
+      generalize hk1y : (p.1 : Int) + ((ip0.1 : Int) - ip1.1) = k1y
+      generalize hk1x : (p.2 : Int) + ((ip0.2 : Int) - ip1.2) = k1x
+      have hk1 : (decide (k1y ≥ 0) && decide (k1x ≥ 0) && decide (k1y < (K.kh : Int))
+            && decide (k1x < (K.kw : Int))) = true
+          ↔ (0 ≤ k1y ∧ 0 ≤ k1x ∧ k1y < (K.kh : Int) ∧ k1x < (K.kw : Int)) := by
+        simp [and_assoc]
+      simp only [vget, gt_iff_lt, decide_eq_true_eq, hk1]
+      by_cases hpos : 0 < valueNative.getD ((ip0.1 + p.1 - K.hy) * w + (ip0.2 + p.2 - K.hx)) 0
+      · by_cases hk : 0 ≤ k1y ∧ 0 ≤ k1x ∧ k1y < (K.kh : Int) ∧ k1x < (K.kw : Int)
+        · simp only [hpos, hk, and_self, if_true]
+          obtain ⟨k1, k2, k3, k4⟩ := hk
+          have e1 : k1y = ((k1y.toNat : Nat) : Int) := by omega
+          have e2 : k1x = ((k1x.toNat : Nat) : Int) := by omega
+          rw [e1, e2, get_ofKernel K hK (by omega) (by omega), hst]
+          simp only [PyRt.sq, Int.toNat_natCast]
+        · simp only [hpos, hk, if_true, if_false]
+          exact hst
+      · simp only [hpos, if_false]
+        exact hst
+
+/-- `w_tilde_data_imaging_from` = `Impl.wTildeData`.  The code skips a native pixel when
+    `image / noise**2` is NaN; the model skips it when `image = 0 ∧ noise² = 0` — `hnan` is that reading of
+    `np.isnan` (IEEE: a quotient of finite numbers is NaN exactly at `0/0`) on the pixels of the arrays.
+    Both native arrays have the shape `h × w`, the kernel footprint of every listed pixel lies inside. -/
+theorem w_tilde_data_imaging_from_tie {α : Type} [Add α] [Mul α] [Div α] [OfNat α 0] [DecidableEq α]
+    [Inhabited α] (isnan : α → Bool) (h w : Nat) (image noise : List α) (K : Kernel α)
+    (idx : List (Nat × Nat))
+    (him : image.length = h * w) (hnz : noise.length = h * w) (hK : K.vals.length = K.kh * K.kw)
+    (hnan : ∀ k : Nat, k < h * w → isnan (vget image k / (vget noise k * vget noise k))
+      = decide (vget image k = 0 ∧ vget noise k * vget noise k = 0))
+    (hfp : ∀ c ∈ idx, K.hy ≤ c.1 ∧ c.1 + K.kh ≤ h + K.hy ∧ K.hx ≤ c.2 ∧ c.2 + K.kw ≤ w + K.hx) :
+    Generated.LoopsNormalEq.w_tilde_data_imaging_from isnan (ofNative h w image) (ofNative h w noise)
+        (ofKernel K) (ofPairs (fun k => (k : Int)) idx)
+      = Impl.wTildeData w image noise K idx := by
+  unfold Generated.LoopsNormalEq.w_tilde_data_imaging_from Impl.wTildeData
+  simp only [A2.shape0_eq, A2.shape1_eq, ofKernel_h, ofKernel_w, ofPairs_h, fdiv_two, forRange_zero_nat,
+    A1.zeros_natCast, forYX]
+  rw [show K.kh / 2 = K.hy from rfl, show K.kw / 2 = K.hx from rfl]
+  rw [← map_range_getD idx (0, 0)]
+  rw [← fill_loop idx.length (0 : α)]
+  apply foldl_congr_mem
+  intro k hk out
+  have hk' : k < idx.length := by simpa using hk
+  obtain ⟨g0, g1⟩ := get_ofPairs_getD idx hk'
+  have hc := hfp (idx.getD k (0, 0)) (by
+    simp [List.getD_eq_getElem?_getD, List.getElem?_eq_getElem hk'])
+  generalize idx.getD k (0, 0) = c at g0 g1 hc
+  obtain ⟨f1, f2, f3, f4⟩ := hc
+  rw [g0, g1]
+  congr 1
+  apply foldl_rel (fun (s t : α) => s = t)
+  · rfl
+  · intro p1 hp1 s t hst
+    apply foldl_rel (fun (s t : α) => s = t) _ _ _ hst
+    intro p2 hp2 s t hst
+    have hp1 : p1 < K.kh := by simpa using hp1
+    have hp2 : p2 < K.kw := by simpa using hp2
+    generalize hp : (p1, p2) = p
+    have hp1 : p.1 < K.kh := by rw [← hp]; exact hp1
+    have hp2 : p.2 < K.kw := by rw [← hp]; exact hp2
+    have e1 : p1 = p.1 := by rw [← hp]
+    have e2 : p2 = p.2 := by rw [← hp]
+    rw [e1, e2]
+    have ey : ((c.1 : Int) + (p.1 : Int)) + -(K.hy : Int) = ((c.1 + p.1 - K.hy : Nat) : Int) := by omega
+    have ex : ((c.2 : Int) + (p.2 : Int)) + -(K.hx : Int) = ((c.2 + p.2 - K.hx : Nat) : Int) := by omega
+    have hy : c.1 + p.1 - K.hy < h := by omega
+    have hx : c.2 + p.2 - K.hx < w := by omega
+    rw [ey, ex, get_zipWith_map _ _ h w image noise him hnz 0 0 hy hx, get_ofKernel K hK hp1 hp2, hst]
+    have := hnan _ (flat_lt_of_lt hy hx)
+    simp only [vget] at this
+    simp only [PyRt.sq, vget, this]
+    exact ite_not_decide _ _ _
+
+/-- `w_tilde_curvature_preload_imaging_from` = `Impl.wTildePreloadFlat` (the three arrays as numpy holds
+    them: floats).  Hypotheses: the noise map has the native shape, the kernel footprint of every listed
+    pixel lies inside it (as for `w_tilde_curvature_value_from_tie`), no row of the preload is longer
+    than the temporaries' width `(2·kh − 1)(2·kw − 1)` (otherwise Python raises IndexError); on the number
+    type: `float(2) = 1 + 1`, integers embed additively, and `int()` (the oracle `trunc`) returns the
+    integer a float holds — all true of IEEE doubles below 2⁵³ and of any ordered field with
+    `trunc = ⌊·⌋`. -/
+theorem w_tilde_curvature_preload_imaging_from_tie {α : Type} [Add α] [Mul α] [Div α] [OfNat α 0]
+    [OfNat α 1] [IntCast α] [LT α] [DecidableLT α] [DecidableEq α] [Inhabited α]
+    (trunc : α → Int) (h w : Nat) (noise : List α) (K : Kernel α) (idx : List (Nat × Nat))
+    (hnz : noise.length = h * w) (hK : K.vals.length = K.kh * K.kw)
+    (hfp : ∀ c ∈ idx, K.hy ≤ c.1 ∧ c.1 + K.kh ≤ h + K.hy ∧ K.hx ≤ c.2 ∧ c.2 + K.kw ≤ w + K.hx)
+    (h2 : ((2 : Int) : α) = 1 + 1) (hcast0 : ((0 : Int) : α) = 0)
+    (hadd : ∀ a b : Nat, (((a : Nat) : Int) : α) + (((b : Nat) : Int) : α) = (((a + b : Nat) : Int) : α))
+    (htrunc : ∀ k : Nat, trunc (((k : Nat) : Int) : α) = (k : Int))
+    (hrow : ∀ row ∈ Impl.wTildePreload w noise K idx,
+      row.length ≤ ((2 * (K.kh : Int) - 1) * (2 * (K.kw : Int) - 1)).toNat) :
+    Generated.LoopsNormalEq.w_tilde_curvature_preload_imaging_from trunc (ofNative h w noise) (ofKernel K)
+        (ofPairs (fun k => (k : Int)) idx)
+      = ((Impl.wTildePreloadFlat w noise K idx).preload,
+         (Impl.wTildePreloadFlat w noise K idx).indexes.map (fun (k : Nat) => (((k : Nat) : Int) : α)),
+         (Impl.wTildePreloadFlat w noise K idx).lengths.map (fun (k : Nat) => (((k : Nat) : Int) : α))) := by
+  show preloadAll trunc (ofNative h w noise) (ofKernel K) (ofPairs (fun k => (k : Int)) idx) = _
+  unfold preloadAll
+  simp only [A2.shape0_eq, A2.shape1_eq, ofPairs_h, ofKernel_h, ofKernel_w]
+  have hrow' : ∀ d, d < idx.length →
+      (sel w noise K idx d).length ≤ ((2 * (K.kh : Int) - 1) * (2 * (K.kw : Int) - 1)).toNat := by
+    intro d hd
+    have := hrow ((sel w noise K idx d).map fun i => (i, valOf w noise K idx d i)) (by
+      rw [wTildePreload_eq]
+      exact List.mem_map.mpr ⟨d, by simpa using hd, rfl⟩)
+    simpa using this
+  rw [phase1_eq h w noise K idx
+    (fun ip0 ip1 hf => w_tilde_curvature_value_from_tie h w noise K ip0 ip1 hnz hK hf) hfp h2 _ hrow']
+  rw [phase2_eq w noise K idx trunc _ hcast0 hadd htrunc hrow']
+  simp only [Impl.wTildePreloadFlat, Impl.PreloadFlat.ofRows, wTildePreload_eq, S1]
+  refine Prod.ext ?_ (Prod.ext ?_ ?_)
+  · simp [List.map_flatten, List.map_map, Function.comp_def]
+  · simp [List.map_flatten, List.map_map, Function.comp_def]
+  · simp [List.map_map, Function.comp_def]
 
 end TieNormalEq
